@@ -47,3 +47,14 @@ Theorem C08_lookup_refuted :
   gg_member ex_env 2 6 false = Found false 6 0 /\ go_lookup ex_env 2 true 6 false false = PtrRecv.
 Proof. vm_compute. repeat split. Qed.
 Print Assumptions C08_lookup_refuted.
+
+(* ---- non-vacuity: the hypotheses of theorem 2 hold on a struct with a direct field and an
+        embedded struct declaring the same name deeper ---- *)
+Example ex_direct_field :
+  let e := [ mkDecl true false [mkField 1 true 0 false (FBasic 2); mkField 9 true 0 true (FNamed 1)] [];
+             mkDecl true false [mkField 1 true 0 false (FBasic 17)] [] ]%N in
+  d_struct (getd e 0) = true /\ d_iface (getd e 0) = false /\
+  find_method 1 0 (d_methods (getd e 0)) = None /\ s_find_method 1 true 0 (d_methods (getd e 0)) = None /\
+  find_field 1 0 (d_fields (getd e 0)) = Some 0 /\ s_find_field 1 true 0 (d_fields (getd e 0)) = Some 0 /\
+  gg_member e 1 0 false = Found true 0 0 /\ go_lookup e 1 true 0 false true = Found true 0 0.
+Proof. vm_compute. repeat split. Qed.
